@@ -21,7 +21,7 @@ NT_CUT = SPIN_CUT + ['allocate_long_table', '25extend_table_if_necessaryERPSt6at
 UNITS = {
   'seg': dict(wrapper='w_seg.cpp', mode='seq', selftest=True, cut=['13internal_growI']),
 }
-UNITS['fault'] = dict(wrapper='w_fault.cpp', mode='seq', exceptions=True, ptratomics=True, prune=True, ptrcmp=True, cut=['14atomic_backoff5pauseEv'])
+UNITS['fault'] = dict(wrapper='w_fault.cpp', mode='seq', exceptions=True, ptratomics=True, prune=True, ptrcmp=True, ptrtag=True, cut=['14atomic_backoff5pauseEv'])
 KIND = {'gb': 0, 'pb': 1, 'gtal': 2}
 def unit(kinds, table, K=None):
     """thread unit for a tuple of operation kinds; table=False: scenarios stay below index 8 (NT_CUT), True: real table extension"""
@@ -69,20 +69,36 @@ HARNESSES += [
   grow('pb2_table', ('pb', 'pb'), True, 1, [sc2(7, 0, 2, PROBE=0, TABW=8), sc2(8, 0, 2, PROBE=0, TABW=8), sc2(7, 1, 2, PROBE=0, TABW=8)], tiers=('thorough',), timeout=3600),
   grow('gtal_pb', ('gtal', 'pb'), False, 1, [sc2(1, 0, 4, PROBE=0), sc2(0, 0, 4)], tiers=('thorough',), timeout=3600),
 ]
-def fsc(pre, op1, a1, fk, k, op2='pb', a2=0, nfollow=2, cap=32, maxidx=12, **kw):
+def fsc(pre, op1, a1, fk, k, op2='pb', a2=0, nfollow=9, cap=64, maxidx=26, **kw):
     d = dict(PRE=pre, OP1=KIND[op1], ARG1=a1, FK=fk, FAULTK=k, OP2=KIND[op2], ARG2=a2, NFOLLOW=nfollow, CAP=cap, MAXIDX=maxidx, TABW=64); d.update(kw); return d
+# scenario groups. fault_seq: must pass on the current tree. fault_ctor_cleanup / fault_hang / fault_dtor: each fails on the current tree
+# with exactly one stable "fault:" assertion text (three open defects of oneTBB, see NOTES.md) - separate harness NAMES so that the
+# known-finding entries (matched by harness + text) can never mask a new failure of a scenario that passes today.
+FAULT_PASS = (
+  [fsc(1, 'gb', 6, 1, k) for k in (0, 2, 3, 4, 5, 6)] + [fsc(1, 'gb', 10, 1, k) for k in (4, 5, 8, 10)] + [fsc(0, 'gb', 3, 1, k) for k in (1, 2, 3)] +
+  [fsc(p, 'pb', 0, 1, 1) for p in (0, 1, 2, 4, 8)] + [fsc(1, 'gtal', 6, 1, k) for k in (2, 4, 5)] + [fsc(3, 'gb', 6, 1, k, op2='gb', a2=2) for k in (2, 6)] +
+  [fsc(0, 'gb', 3, 0, 1), fsc(0, 'pb', 0, 0, 1), fsc(2, 'pb', 0, 0, 1), fsc(4, 'pb', 0, 0, 1), fsc(8, 'pb', 0, 0, 1), fsc(8, 'pb', 0, 0, 2)] +
+  [fsc(2, 'gb', 2, 0, 1), fsc(4, 'gb', 4, 0, 1), fsc(2, 'gb', 2, 0, 1, op2='gtal', a2=6), fsc(4, 'gb', 4, 0, 1, op2='gb', a2=3), fsc(2, 'gtal', 4, 0, 1)])
+FAULT_F1 = [fsc(1, 'gb', 6, 1, 1)] + [fsc(1, 'gb', 10, 1, k) for k in (1, 2, 3)] + [fsc(1, 'gtal', 6, 1, 1), fsc(3, 'gb', 6, 1, 1, op2='gb', a2=2)]
+FAULT_F2 = [fsc(1, 'gb', 4, 0, 1), fsc(1, 'gb', 4, 0, 1, op2='gtal', a2=3), fsc(1, 'gb', 4, 0, 1, op2='gb', a2=2), fsc(1, 'gtal', 5, 0, 1)]
+FAULT_F3 = [fsc(1, 'gb', 4, 0, 2)] + [fsc(1, 'gb', 10, 0, k) for k in (1, 2, 3, 4)] + [fsc(1, 'gtal', 5, 0, 2), fsc(3, 'gb', 2, 0, 1, op2='gb', a2=6)]
+def fharness(name, scen, what):
+    return dict(name=name, unit='fault', harness='h_fault.c', defines={'memset': 'vp_memset'}, scenarios=scen, timeout=300, native_cflags=['-fno-sanitize=null'],
+                cbmc=['--unwind', '66', '--object-bits', '10', '--max-field-sensitivity-array-size', '256'],
+                desc='single thread, unit compiled WITH exceptions: PRE healthy push_backs; one growth call in which the k-th allocation fails or the k-th element copy throws (operation, delta/n, k concrete per query; element values symbolic); checked reads of every claimed index; a healthy follow-up growth call + 9 push_backs; reads; destruction. ' + what,
+                bounds={'operations': 'push_back / grow_by(2..10) / grow_to_at_least(4..6) after 0..8 elements', 'fault': 'every listed (kind, k) pair, one per query', 'indices': '< 26 (segments 0..4, long table included)'})
 HARNESSES += [
-  dict(name='fault_seq', unit='fault', harness='h_fault.c', defines={'memset': 'vp_memset'}, cbmc=['--unwind', '66', '--object-bits', '10'], timeout=200,
-       native_cflags=['-fno-sanitize=null'],
-       scenarios=[fsc(1, 'gb', 6, 1, k) for k in (1, 2)],
-       desc='fault injection, single thread', bounds={}),
+  fharness('fault_seq', FAULT_PASS, 'Oracle: the injected exception reaches exactly the failing caller; every access stays inside storage handed out by the allocator stub; at(i) works or throws; follow-up calls work or throw and never wait; constructed elements keep value and address; each constructed element destroyed exactly once, every block freed exactly once.'),
+  fharness('fault_ctor_cleanup', FAULT_F1, 'KNOWN DEFECT scenarios: the clean-up guard of internal_loop_construct zero-fills slots of segments that were never allocated.'),
+  fharness('fault_hang', FAULT_F2, 'KNOWN DEFECT scenarios: after a failed eager allocation of the last segment the skipped segments stay nullptr; later calls wait for them forever.'),
+  fharness('fault_dtor', FAULT_F3, 'KNOWN DEFECT scenarios: after a failed allocation claimed slots are neither constructed nor zero-filled; the destructor destroys them.'),
 ]
 MANIFEST = dict(
-  level_text='Bounded symbolic execution of the real concurrent_vector / segment_table code. Full width (every 64-bit index / size, SAT-decided): segment_index_of/base/size tile the index space and round-trip, first-block and embedded-table formulas, number_of_elements_in_segment, iterator ++/-- cache validity, grow_to_at_least claims exactly [old size, n). Thread mode (Lazy-CSeq encoding, solver-owned schedules): 2-3 threads running real push_back / grow_by / grow_to_at_least on one pre-grown vector: returned ranges disjoint and tiling [old size, size), every element constructed exactly once with the requested value inside a live allocated segment, element addresses stable, no call waits forever.',
-  level_note='Bounds per harness in evidence (threads, rounds, deltas 0..3, pre-grown sizes <= 8, indices < 16). Cuts: spin_wait_while_eq -> contract stub (park until changed); units named *_nt stay below the embedded-table limit and cut the table extension to asserting stubs; *_lt units run the real extend_table_if_necessary/allocate_long_table. Allocation = never-failing stub with ghost size bookkeeping (compiled -fno-exceptions: allocator/constructor exceptions are outside). Trusted: clang-14 IR, tools/ir2c.py (selftest differential for the sequential unit), cbmc.',
+  level_text='Bounded symbolic execution of the real concurrent_vector / segment_table code. Full width (every 64-bit index / size, SAT-decided): segment_index_of/base/size tile the index space and round-trip, first-block and embedded-table formulas, number_of_elements_in_segment, iterator ++/-- cache validity, grow_to_at_least claims exactly [old size, n). Thread mode (Lazy-CSeq encoding, solver-owned schedules): 2-3 threads running real push_back / grow_by / grow_to_at_least on one pre-grown vector: returned ranges disjoint and tiling [old size, size), every element constructed exactly once with the requested value inside a live allocated segment, element addresses stable, no call waits forever. Fault injection (sequential, exceptions on): after a failed allocation or a throwing element constructor every access stays inside allocator storage, later calls work or throw, constructed elements keep value/address and are destroyed exactly once.',
+  level_note='Bounds per harness in evidence (threads, rounds, deltas 0..3, pre-grown sizes <= 8, indices < 16). Cuts: spin_wait_while_eq -> contract stub (park until changed); units named *_nt stay below the embedded-table limit and cut the table extension to asserting stubs; *_lt units run the real extend_table_if_necessary/allocate_long_table. Allocation = stub with ghost size bookkeeping, never failing in the thread-mode units (compiled -fno-exceptions). Fault clause: single-threaded harnesses fault_* compiled WITH exceptions (failing k-th allocation / throwing k-th element copy, follow-up calls, reads, destruction); three open oneTBB defects in that area are isolated in the harnesses fault_ctor_cleanup / fault_hang / fault_dtor (known findings). Trusted: clang-14 IR, tools/ir2c.py (selftest differential for the sequential unit), cbmc.',
 )
 OUTSIDE = [
-  'throwing allocator / element constructor (units are compiled with -fno-exceptions): segment_allocation_failure_tag paths, zero-filling, destructibility after a failure',
+  'faults under concurrency (the fault harnesses are single-threaded; the thread-mode units are compiled with -fno-exceptions); fault positions and operation sizes other than the enumerated ones (k, delta, n are concrete per query: a symbolic k made symex explode); more than one fault per run; throwing move constructors / iterator-range grow_by / copy- and move-construction of whole vectors',
   'more than 3 threads, more than one growth call per thread, deltas > 3 (5 in the single-thread harness), pre-grown sizes > 8, indices >= 16 in thread mode',
   'concurrent growth with sizes >= 2^31 / 2^32 other than through the full-width arithmetic lemmas and the grow_to_at_least claim lemma',
   'segment 63 (indices >= 2^63): number_of_elements_in_segment overflows there; such a segment can never be allocated',
@@ -92,6 +108,7 @@ OUTSIDE = [
   'table extension racing with a still-unpublished embedded segment (allocate_long_table waiting for segment 2 while its owner allocates): needs a call spanning indices 5..8 from size 4; the *_lt thread units only run push_back from 7/8 pre-grown elements (mutation M8 in NOTES.md is therefore missed)',
 ]
 STUBS = [
+  'fault_* harnesses: allocator stub that throws on the k-th allocation; Elem copy constructor observer that throws on the k-th construction; fresh blocks are poisoned so that never-constructed slots are recognisable; r1::throw_exception throws (contract); atomic_backoff::pause cut to a stub asserting that a single thread never has to wait; exceptions thrown from static objects (so that symex folds the pending-exception flag)',
   'vp_allocator<T>::allocate/deallocate -> vp_alloc_elem/vp_alloc_tab: fresh block of exactly the requested bytes from a static per-thread pool, never fails; deallocate checks pointer/size/double free',
   'spin_wait_while_eq(location, value): returns the content once it differs from value, parks the calling model thread (VP_BLOCK) while equal',
   '*_nt units: extend_table_if_necessary / allocate_long_table -> stubs asserting the call is unnecessary (end_index <= 8)',
